@@ -386,6 +386,14 @@ def run_cases(cases, ctx):
             for sig, r in res:
                 if sig is not None:
                     violations.append((sig, r['src']))
+    # ---- thorough: a shard of the sources is also evaluated by vm_compute inside Coq and compared with the
+    # extracted runner (cross-check of extraction + OCaml glue)
+    if model and ctx.get('tier') == 'thorough':
+        d = coq_shard(model, sorted(seen, key=lambda x: (len(x), x))[:4000:10][:300])
+        hist['coq-vm-shard-cases'] = d['cases']
+        if d['error']:
+            disagreements.append({'case': {'kind': 'corpus', 'srcs': []}, 'summary': 'in-Coq evaluation shard',
+                                  'difference': d['error']})
     # one violation per signature: the shortest witness, shrunk
     out_v = []
     by_sig = {}
@@ -401,6 +409,44 @@ def run_cases(cases, ctx):
                       'observed': [repr(LC.lex_impl([small]))[:400]]})
     return {'evaluations': n_eval, 'nontrivial': len(nontrivial), 'rule': RULE, 'samples': samples,
             'disagreements': disagreements, 'violations': out_v, 'histogram': hist, 'exhaustive': False}
+
+
+def coq_shard(model, srcs):
+    """write rocq/cases/cases_c07.v: for every source, vm_compute of the model inside Coq must equal what the
+    extracted OCaml runner printed"""
+    import os
+    srcs = [x for x in srcs if len(x) <= 40]
+    ans = lib.run_driver(model, ['lex ' + LC.enc_chunks([x]) for x in srcs])
+
+    def zl(b):
+        return '[' + '; '.join(str(c) for c in b) + ']'
+    kinds = {'TokSpace': 0, 'TokNewline': 1, 'TokComment': 2, 'TokString': 3, 'TokNumber': 4, 'TokName': 5,
+             'TokLabel': 6, 'TokKeyword': 7, 'TokSymbol': 8}
+    rows = []
+    for x, a in zip(srcs, ans):
+        if a.startswith('OK '):
+            toks = LC.parse_model_toks(a.split(' ', 2)[2])
+            exp = 'Some [' + '; '.join('(%d, %s, %d, %d, %s, %s)' % (
+                kinds[t['cls']], zl(t['data']), t['line'], t['col'], zl(t['code']), zl(t['ext'])) for t in toks) + ']'
+        elif a.startswith('ERR '):
+            exp = 'None'
+        else:
+            return {'cases': 0, 'error': 'runner: ' + a[:100]}
+        rows.append('(%s, %s)' % (zl(x), exp))
+    text = ('From PV Require Import Base.Prelude Generated.T_lexer Model.Lexer Proofs.LexerSpec.\n'
+            'Definition render (s : list Z) := match model_lex [s] with\n'
+            '  | Ok ts => Some (map (fun t => (kind_code (t_kind t), t_data t, t_line t, t_col t, tok_code t, t_ext t)) ts)\n'
+            '  | Err _ => None end.\n'
+            'Definition cases : list (list Z * option (list (Z * list Z * Z * Z * list Z * list Z))) :=\n  [%s].\n'
+            'Fixpoint check (l : list (list Z * option (list (Z * list Z * Z * Z * list Z * list Z)))) : Prop :=\n'
+            '  match l with [] => True | (s, e) :: r => render s = e /\\ check r end.\n'
+            'Lemma shard_agrees : check cases.\nProof. vm_compute. repeat split. Qed.\n') % ';\n   '.join(rows)
+    d = os.path.join(lib.ROCQ, 'cases')
+    os.makedirs(d, exist_ok=True)
+    with open(os.path.join(d, 'cases_c07.v'), 'w') as fh:
+        fh.write(text)
+    rc, out, err = lib.sh(['timeout', '600', 'coqc', '-Q', 'theories', 'PV', 'cases/cases_c07.v'], cwd=lib.ROCQ, timeout=630)
+    return {'cases': len(rows), 'error': None if rc == 0 else 'coqc cases_c07.v failed: ' + (out + err)[-400:]}
 
 
 def _eval_many_rows(mon, rows):
